@@ -48,11 +48,38 @@ def cases(tier):
     for tpl in PARAM:
         for mll in (0, 30):
             out.append({"k": "param", "tpl": tpl, "rs": "all", "mll": mll, "ss": [sh.replace("@P@", PARAM[tpl][0]) for sh in PARAM_SHAPES]})
+    # expressions whose RENDERED text carries the fixable violation, in the taken branch, in an unreached branch
+    # (linted only as an alternate variant) and in a loop body
+    out.append({"k": "exprout", "rs": "all", "ss": exprout_templates()})
+    out.append({"k": "exprout", "rs": "layout", "ss": exprout_templates()})
     for kind, pieces in (("python", PY_PIECES), ("placeholder", PH_PIECES)):
         ss = sorted({"".join(tup) for k in range(1, 4) for tup in itertools.product(pieces, repeat=k)}, key=lambda x: (len(x), x))
         for i in range(0, len(ss), 32):
             out.append({"k": kind, "rs": "all", "ss": ss[i : i + 32]})
     return out
+
+
+EXPR_VALUES = ["c  as  d", "c  ,d", "c as  d", "c+d"]
+
+
+def exprout_templates():
+    out = []
+    for i in range(len(EXPR_VALUES)):
+        w = "{{ w%d }}" % i
+        out += [
+            "SELECT " + w + " FROM t\n",
+            "SELECT {% if c %}a{% else %}" + w + "{% endif %} FROM t\n",
+            "SELECT {% if c %}" + w + "{% else %}a{% endif %} FROM t\n",
+            "SELECT {% if not c %}a{% elif d %}b{% else %}" + w + "{% endif %} FROM t\n",
+            "SELECT 1{% for x in xs %}, " + w + "{% endfor %} FROM t\n",
+            "SELECT a FROM t WHERE {% if c %}a = 1{% else %}" + w + " = 1  and b = 2{% endif %}\n",
+        ]
+    return out
+
+
+def exprout_linter(rs, ci):
+    ctx = dict(corpus.T_CTX[ci], **{"w%d" % i: v for i, v in enumerate(EXPR_VALUES)})
+    return sq.linter("ansi", "jinja", rules={"all": "all", "layout": "layout"}[rs], configs=sq.jinja_ctx_configs(ctx))
 
 
 PARAM = {
@@ -132,7 +159,7 @@ def run_case(case):
     res = {"n": 0, "fails": [], "cls": set(), "stats": {}, "nontrivial": 0}
     kind = case["k"]
     texts = case["ts"] if kind == "jinja" else case["ss"]
-    ctxs = range(len(corpus.T_CTX)) if kind == "jinja" else [0]
+    ctxs = range(len(corpus.T_CTX)) if kind in ("jinja", "exprout") else [0]
     for text in texts:
         for ci in ctxs:
             if "ctx" in case and case["ctx"] != ci:
@@ -142,6 +169,8 @@ def run_case(case):
             if kind == "param":
                 one.update({"tpl": case["tpl"], "mll": case.get("mll", 0)})
                 lnt = param_linter(case)
+            elif kind == "exprout":
+                lnt = exprout_linter(case["rs"], ci)
             else:
                 lnt = get_linter(kind, case["rs"], ci)
 
